@@ -27,11 +27,20 @@ Proof. unfold bytes_ok. apply Forall_rev. Qed.
 
 (** * Little-endian core, big-endian wrappers *)
 
+(** Low byte and shift written with [Z.land]/[Z.shiftr] (cheap when extracted; the division
+    algorithm of [Z.modulo] is quadratic in the bit length); [le_enc_S] is the arithmetic reading
+    every proof uses. Both agree on negative [v] too (two's complement). *)
 Fixpoint le_enc (k : nat) (v : Z) : list Z :=
   match k with
   | O => []
-  | S k' => v mod 256 :: le_enc k' (v / 256)
+  | S k' => Z.land v 255 :: le_enc k' (Z.shiftr v 8)
   end.
+
+Lemma le_enc_S k v : le_enc (S k) v = v mod 256 :: le_enc k (v / 256).
+Proof.
+  cbn [le_enc]. change 255 with (Z.ones 8). rewrite Z.land_ones by lia.
+  rewrite Z.shiftr_div_pow2 by lia. reflexivity.
+Qed.
 
 Fixpoint le_dec (l : list Z) : Z :=
   match l with
@@ -53,14 +62,14 @@ Lemma pow256_pos k : 0 < pow256 k.
 Proof. unfold pow256. apply Z.pow_pos_nonneg; lia. Qed.
 
 Lemma le_enc_length k v : length (le_enc k v) = k.
-Proof. revert v; induction k; intros; cbn [le_enc length]; auto. Qed.
+Proof. revert v; induction k; intros; [reflexivity|]. rewrite le_enc_S. cbn [length]. auto. Qed.
 
 Lemma be_enc_length k v : length (be_enc k v) = k.
 Proof. unfold be_enc. rewrite rev_length. apply le_enc_length. Qed.
 
 Lemma le_enc_ok k v : bytes_ok (le_enc k v).
 Proof.
-  revert v; induction k; intros; cbn [le_enc]; constructor.
+  revert v; induction k; intros; [constructor|]. rewrite le_enc_S. constructor.
   - unfold byte_ok. apply Z.mod_pos_bound. lia.
   - apply IHk.
 Qed.
@@ -72,7 +81,7 @@ Lemma le_dec_enc k v : 0 <= v < pow256 k -> le_dec (le_enc k v) = v.
 Proof.
   revert v; induction k; intros v H.
   - unfold pow256 in H. cbn in H. cbn. lia.
-  - rewrite pow256_S in H. cbn [le_enc le_dec].
+  - rewrite pow256_S in H. rewrite le_enc_S. cbn [le_dec].
     rewrite IHk.
     + pose proof (Z.div_mod v 256). lia.
     + split; [apply Z.div_pos; lia|]. apply Z.div_lt_upper_bound; lia.
@@ -87,7 +96,7 @@ Qed.
 
 Lemma le_enc_dec l : bytes_ok l -> le_enc (length l) (le_dec l) = l.
 Proof.
-  induction 1 as [|b r Hb Hr IH]; cbn [le_dec length le_enc]; [reflexivity|].
+  induction 1 as [|b r Hb Hr IH]; cbn [le_dec length]; [reflexivity|]. rewrite le_enc_S.
   unfold byte_ok in Hb.
   assert (E1 : (b + 256 * le_dec r) mod 256 = b).
   { symmetry. apply Z.mod_unique with (q := le_dec r); lia. }
